@@ -178,14 +178,27 @@ def to_model_doc(doc):
     return d
 
 
+def _sort_sets(x):
+    """the members of every py/set in one canonical order (a set is re-written in its iteration order, which depends on
+    the string-hash seed of the process)"""
+    if isinstance(x, dict):
+        if set(x) == {'py/set'} and isinstance(x['py/set'], list):
+            return {'py/set': sorted((_sort_sets(y) for y in x['py/set']), key=lambda v: json.dumps(v, sort_keys=True, default=repr))}
+        return {k: _sort_sets(v) for k, v in x.items()}
+    if isinstance(x, (list, tuple)):
+        return [_sort_sets(y) for y in x]
+    return x
+
+
 def norm_doc(doc):
     """order-free comparable form; 1.1.0 rule strings compared as parsed JSON; compiled fields by presence"""
-    d = copy.deepcopy(doc)
+    d = _sort_sets(copy.deepcopy(doc))
     if isinstance(d.get('rules'), dict):
         d['rules'] = {k: (('json', json.loads(v)) if isinstance(v, str) else v) for k, v in d['rules'].items()}
     for f in ('actions_compiled_regex', 'subjects_compiled_regex', 'resources_compiled_regex'):
         if f in d:
             d[f] = 'present'
+    d = _sort_sets(d)
     return json.dumps(d, sort_keys=True, default=lambda o: list(o) if isinstance(o, tuple) else repr(o))
 
 
@@ -433,6 +446,7 @@ def _decode_model_doc(text):
     for f in ('actions_compiled_regex', 'subjects_compiled_regex', 'resources_compiled_regex'):
         if f in d:
             d[f] = 'present'
+    d = _sort_sets(d)
     return json.dumps(d, sort_keys=True, default=lambda o: list(o) if isinstance(o, tuple) else repr(o))
 
 
